@@ -70,8 +70,8 @@ def unit_menu(thresholds) -> tuple[float, ...]:
     return tuple(menu)
 
 
-def index_menu(n: int) -> tuple[int, ...]:
-    if n <= 6:
+def index_menu(n: int, full_upto: int = 6) -> tuple[int, ...]:
+    if n <= full_upto:
         return tuple(range(n))
     return tuple(dict.fromkeys((0, 1, n // 2, n - 1)))
 
@@ -79,9 +79,10 @@ def index_menu(n: int) -> tuple[int, ...]:
 class ChoiceRNG(random.Random):
     """A random.Random whose every high-level draw is answered by a Chooser."""
 
-    def __init__(self, chooser, thresholds=None, unit=None):
+    def __init__(self, chooser, thresholds=None, unit=None, index_full_upto=6):
         super().__init__(0)
         self._ch = chooser
+        self._full_upto = index_full_upto
         self._unit = tuple(unit) if unit is not None else unit_menu(
             thresholds if thresholds is not None else ())
         self.draws = 0
@@ -125,8 +126,8 @@ class ChoiceRNG(random.Random):
     def _index(self, what, n):
         if n <= 0:
             raise ValueError(f"empty range for {what}")
-        menu = index_menu(n)
-        return self._pick(f"{what}/{n if n <= 6 else 'big'}", menu)
+        menu = index_menu(n, self._full_upto)
+        return self._pick(f"{what}/{n if n <= self._full_upto else 'big'}", menu)
 
     def randrange(self, start, stop=None, step=1):
         if stop is None:
